@@ -131,6 +131,9 @@ def bannerLine (line : Bytes) : Except PErr (SoftwareVersion × Option Bytes) :=
   | .error e => .error e
   | .ok sw => .ok (sw, if pieces'.length > 1 then some (joinItems 0x20 (pieces'.drop 1)) else none)
 
+/-- `carriage_return_missing`: the last piece of the line does not end in CR -/
+def crMissing (line : Bytes) : Bool := ((splitOnSpace line).getLastD []).getLast? != some 0x0d
+
 /-- `parse_parsable('protocol_version', SshProtocolVersion)` inside `SshProtocolMessage._parse`: the
 bare `ValueError` of `SshVersion(major)` is translated to `InvalidValue` here (repaired);
 `SshProtocolVersion` parsed on its own still raises it -/
@@ -138,6 +141,21 @@ def bannerVersion (bs : Bytes) : Except PErr ((Nat × Nat) × Nat) :=
   match parseProtocolVersion bs with
   | .error (.crash _) => .error .invalidValue
   | r => r
+
+/-- `identification_string_length`: the consumed length, one more when the CR has to be added -/
+def composedLength (n : Nat) (line : Bytes) : Nat := if crMissing line then n + 1 else n
+
+/-- the end of `SshProtocolMessage._parse`, on the line between the second `-` and the first line
+feed: software version and comment; `parse_string('separator', '\n')` consumes exactly ONE line feed
+(repaired: `parse_separator` swallowed every line feed that followed); the 255-byte limit applies to
+the string as it is composed, i.e. terminated by CR LF (repaired); then the constructor's comment
+validator -/
+def bannerFinish (major minor nv : Nat) (line : Bytes) : Except PErr (Banner × Nat) := do
+  let (sw, comment) ← bannerLine line
+  let n := 5 + nv + line.length + 1
+  if composedLength n line > 255 then .error (.tooMuch ((composedLength n line - 255 : Nat) : Int))
+  else if (comment.getD []).any (fun c => c == 0x0d || c == 0x0a) then .error .invalidValue
+  else pure (⟨major, minor, sw, comment⟩, n)
 
 /-- `SshProtocolMessage._parse` -/
 def parseBanner (bs : Bytes) : Except PErr (Banner × Nat) :=
@@ -151,14 +169,7 @@ def parseBanner (bs : Bytes) : Except PErr (Banner × Nat) :=
     let line := rest.takeWhile (· != 0x0a)
     if line.length == rest.length then .error .invalidValue       -- no LF at all
     else if !isAscii line then .error .invalidValue
-    else
-      let (sw, comment) ← bannerLine line
-      -- `parse_separator('\n')`: ALL the line feeds that follow
-      let lfs := ((rest.drop line.length).takeWhile (· == 0x0a)).length
-      let n := 5 + nv + line.length + lfs
-      if n > 255 then .error (.tooMuch ((n - 255 : Nat) : Int))
-      else if (comment.getD []).any (fun c => c == 0x0d || c == 0x0a) then .error .invalidValue
-      else pure (⟨major, minor, sw, comment⟩, n)
+    else bannerFinish major minor nv line
 
 /-- `SshProtocolMessage.compose` -/
 def composeBanner (b : Banner) : Except PErr Bytes := do
